@@ -1002,3 +1002,12 @@ func WithChooser(c *nd.Ctx, fn func()) {
 	defer seqChooser.Store(nil)
 	fn()
 }
+
+// SetCanonical switches the canonical (non-exploring) schedule on or off from
+// inside a run: a harness can drive a set-up phase along one fixed schedule
+// and explore only the phase under test.
+func SetCanonical(on bool) {
+	if s := active.Load(); s != nil && !s.abort {
+		s.canon = on
+	}
+}
